@@ -25,7 +25,7 @@ def _run(name, mon, payloads, rule, samples=None):
     t0 = time.time()
     lines = [f'MON {mon} ' + json.dumps(p) for p in payloads]
     outs = corr.run_impl(lines)
-    failing, nontriv, crashed = [], set(), 0
+    failing, nontriv, crashed, first_err = [], set(), 0, None
     for l, o in zip(lines, outs):
         if o.startswith('X worker-hang'):
             hist = corr.hang_log[-1][-60:] if corr.hang_log and 'history' in o else []
@@ -37,11 +37,13 @@ def _run(name, mon, payloads, rule, samples=None):
             continue
         if o.startswith('HARNESS-ERROR') or o.startswith('X '):
             crashed += 1
+            first_err = first_err or o[:300]
             continue
         try:
             r = json.loads(o)
         except Exception:
             crashed += 1
+            first_err = first_err or o[:300]
             continue
         failing += r.get('fail', [])
         if r.get('nontrivial'):
@@ -49,7 +51,7 @@ def _run(name, mon, payloads, rule, samples=None):
     step = max(1, len(payloads) // 4)
     return {'name': name, 'cases': len(payloads), 'distinct_nontrivial': len(nontriv), 'rule': rule,
             'samples': samples or [json.dumps(p)[:300] for p in payloads[::step][:4]], 'failing': failing,
-            'harness_errors': crashed, 'wall_s': time.time() - t0}
+            'harness_errors': crashed, 'harness_error_sample': first_err, 'wall_s': time.time() - t0}
 
 
 def _merge(name, parts):
@@ -61,6 +63,7 @@ def _merge(name, parts):
         out['samples'] += p['samples'][:2]
         out['failing'] += p['failing']
         out['harness_errors'] += p.get('harness_errors', 0)
+        out['harness_error_sample'] = out.get('harness_error_sample') or p.get('harness_error_sample')
         out['wall_s'] += p['wall_s']
     return out
 
@@ -106,6 +109,14 @@ def monitor_c02(ctx):
     for i in range(sz(ctx, 300, 3000)):
         rng = random.Random(f'{ctx["seed"]}/mon-c02/{i}')
         pays.append({'line': proggen.eval_case(rng)[0]})
+    # every builtin name rebound to a lambda of the program and then called with 0..2 arguments, directly and piped: whatever the
+    # evaluator passes to a callee named like a builtin must be the caller's arguments and nothing else
+    for n in names:
+        if n.startswith('__'):
+            continue
+        for src in (f'{n} = v => v; {n}()', f'{n} = v => [v]; r = {n}(1); r', f'{n} = (a, b) => [a, b]; x = {n}(1, 2); x',
+                    f'{n} = v => v; [3, 1, 2] | {n}', f'{n} = (a, b) => a; {n}(1)'):
+            pays.append({'line': gens2.eval_line(src)})
     pays.append({'line': gens2.eval_line('dict[0]')})
     pays.append({'line': gens2.eval_line('x = dict["a"]; [x]')})
     # error paths of the library itself (regex timeout on a catastrophic pattern, invalid patterns, arithmetic signals, deep
@@ -145,7 +156,10 @@ def monitor_c03(ctx):
                                                       ['reduce([c, 1], push)', ['list']], ['q = insert; q(c, 0, 1)', ['list']], ['map([c], v => push(v, 1))', ['list']],
                                                       ['s = __setitem__; s(c, 0, 1)', ['list']], ['s = __setitem__; s(c, "k", 1)', ['dict']],
                                                       ['apply(__setitem_with_op__, c, "0", "+=", 1)', ['dict']], ['try_apply(push, c, 1); push(c, 1)', ['list']],
-                                                      ['sorted([c], v => push(v, 1))', ['list']], ['filter([c], v => push(v, 1))', ['list']]]}],
+                                                      ['sorted([c], v => push(v, 1))', ['list']], ['filter([c], v => push(v, 1))', ['list']],
+                                                      # index assignment through a missing intermediate key / a multi-step target
+                                                      ['c["fresh"]["x"] = 1', ['dict']], ['c["fresh"]["x"]["y"] = 1', ['dict']], ['c["fresh"][0] = 1', ['dict']],
+                                                      ['c["fresh"]["x"] += 1', ['dict']], ['get(c, "fresh", 0); c["fresh"] = 1', ['dict']]]}],
              'each element-adding operation on lists and dicts of exactly 10000 and 10001 elements: ParserError and container unchanged')
     return _merge('c03', [a, b])
 
@@ -189,8 +203,8 @@ def monitor_c05(ctx):
             pays.append({'fn': fn, 'pattern': pat, 'subject_expr': subj, 'flags': []})
     # every flag string (long ones, ones with separators or invalid letters) and any extra positional arguments a script
     # may pass: none of them may lengthen or lift the limit
-    cat = ('(a+)+$', "('a' * 30 + '!')")
-    for fl in [['ims' * 10 + 'x'], ['i, m, s'], ['imsx' * 8], ['i' * 200 + '?'], ['ims' * 12 + ' ,|' + 'q'], ['', 5], ['i', 5], ['', 4.0],
+    cat = ('(a|aa)+$', "('a' * 44 + '!')")      # reaches the timeout with the `regex` engine ((a+)+$ does not: it is optimised away)
+    for fl in [['ims' * 10 + 'x'], ['i, m, s'], ['imsx' * 8], ['i' * 200 + '?'], ['ims' * 12 + ' ,|' + 'q'], ['', 5], ['i', 5], ['', 4.0], ['', 3, 3], [None, 3], ['', '3'], ['', 2.5, None],
                ['', None], ['', 0], ['', '5'], ['i', 3, 2]]:
         for fn in ('match', 'match_groups', 'match_all'):
             pays.append({'fn': fn, 'pattern': cat[0], 'subject_expr': cat[1], 'flags': fl})
@@ -253,8 +267,24 @@ def monitor_c09(ctx):
     pays = [{'line': l} for l in _eval_lines_from(ctx)]
     for c in gens2.probe_cases(ctx['seed'], sz(ctx, 3000, 20000)):
         pays.append({'line': c[0].replace(' (modelparser)', '')})
-    return _run('c09', 'c09', pays, 'probe shapes: every probe called at most as often as it occurs in the source (lambda-free programs); in '
-                'programs without and/or/if the probes run in source order up to the first failure (source-level oracle)')
+    a = _run('c09', 'c09', pays, 'probe shapes: every probe called at most as often as it occurs in the source (lambda-free programs); in '
+             'programs without and/or/if the probes run in source order up to the first failure (source-level oracle)')
+    atoms = ['0', '""', '[]', 'None', '"x"', '5', '[1]', 'False', 'True', '{}', '0.0', '"0"']
+    srcs = []
+    for i in range(sz(ctx, 400, 4000)):
+        r = random.Random(f'{ctx["seed"]}/mon-c09-chain/{i}')
+        n = r.randint(2, 5)
+        op = r.choice(['or', 'and', None])
+        parts = [r.choice(atoms) for _ in range(n)]
+        src = '{0}'
+        for j in range(1, n):
+            o = op or r.choice(['or', 'and'])
+            q = '{%d}' % j
+            src = (f'({src}) {o} {q}' if r.random() < 0.2 else f'{src} {o} ({q})' if r.random() < 0.1 else f'{src} {o} {q}')
+        srcs.append([src, parts])
+    b = _run('c09_chain', 'c09_chain', [{'srcs': srcs[i:i + 100]} for i in range(0, len(srcs), 100)],
+             'chains of 2..5 and / or over falsy and truthy constants of every type, flat and grouped: the value is the deciding operand itself')
+    return _merge('c09', [a, b])
 
 
 # ------------------------------------------------------------------ C10
@@ -272,7 +302,21 @@ def monitor_c10(ctx):
     c = _run('c10_missing', 'c10_missing', [{'cases': MISSING_CASES}],
              'host names mappings that answer for absent keys (Counter / defaultdict / __missing__): lookups still fall through to the builtins, '
              'undefined names stay undefined, a lookup adds no key')
-    return _merge('c10', [a, b, c])
+    AZ = lambda body: [['az', [], body], ['ak', ['q'], body]]
+    SC = []
+    for call in ('az()', 'try_apply(az)', 'try_apply(ak)', 'apply(az)'):
+        SC += [{'src': f'{call}; 1', 'astfns': AZ('loc = 1\nloc'), 'absent': ['loc'], 'expect': "1"},
+               {'src': f'{call}; loc', 'astfns': AZ('loc = 1\nloc'), 'names': {'loc': 5}, 'keep': {'loc': 5}, 'expect': "5"},
+               {'src': f'{call}; loc', 'astfns': AZ('loc += 1\nloc'), 'names': {'loc': 5}, 'keep': {'loc': 5}, 'expect': "5"},
+               {'src': f'r = apply(w => [{call}, try_apply(v => loc, 0)], 1); r', 'astfns': AZ('loc = 1\nloc'), 'absent': ['loc'],
+                'expect': "[1, None]"},
+               {'src': f'r = apply(p => [{call}, p], 5); r', 'astfns': AZ('p = 2\np'), 'absent': ['p'], 'expect': "[2, 5]"},
+               {'src': f'r = map([7], p => [{call}, p]); r', 'astfns': AZ('p = 2\np'), 'absent': ['p'], 'expect': "[[2, 7]]"},
+               {'src': f'try_apply(w => {call}, 0); try_apply(v => loc, 0)', 'astfns': AZ('loc = 1\n1 / 0'), 'absent': ['loc'], 'expect': 'None'}]
+    d = _run('c10_locals', 'c10_locals', [{'scenarios': SC}],
+             'ast_names lambdas with statement bodies that bind no parameter at the call (declared without parameters / called with zero '
+             'arguments) and assign: the locals are gone after the call, from top level and from inside another lambda call, on return and on raise')
+    return _merge('c10', [a, b, c, d])
 
 
 # ------------------------------------------------------------------ C11 / C17
@@ -294,7 +338,20 @@ def monitor_c11(ctx):
              'repeated on a freshly constructed SqParser with deep-copied equal arguments; result / exception class and message compared')
     b = _run('c11_repeat', 'c11_repeat', [{'define': 'f = n => n + 1 + 1 + 1 + 1 + 1 + 1 + 1 + 1 + 1 + 1', 'call': 'f(1)', 'N': 30, 'times': 9}],
              'the same eval call with equal arguments repeated on one parser')
-    return _merge('c11', [a, b])
+    pp = []
+    texts = histgen.pool(ctx['seed'])
+    for i, h in enumerate(_hist_payloads(ctx, 'mon-c11p', sz(ctx, 24, 300), ['none'])):
+        rng = random.Random(f'{ctx["seed"]}/mon-c11p-final/{i}')
+        used = [c[1] for c in h['calls'] if c[0] in ('parse', 'eval')] or [rng.choice(texts)]
+        finals = []
+        for _ in range(3):
+            t = rng.choice(histgen.near_dups(rng.choice(used)) + [rng.choice(histgen.STATEFUL)])
+            finals.append(['eval', t, 0, 'default', rng.randrange(1, 2 ** 31)] if rng.random() < 0.7 else ['parse', t])
+        pp.append({'heap': h['heap'], 'calls': h['calls'], 'finals': finals, 'fresh_parser': rng.random() < 0.5})
+    c = _run('c11_process', 'c11_process', pp, 'after a history in one process, further calls (sources equal / nearly equal to earlier ones: other '
+             'blanks, case, quotes, number spellings) with freshly built arguments, on the used or on a new SqParser, compared with the same call '
+             'in a pristine interpreter forked from a process that never parsed or evaluated anything')
+    return _merge('c11', [a, b, c])
 
 
 def monitor_c17(ctx):
